@@ -98,6 +98,13 @@ func init() {
 	models[pkgMath+".OneInt"] = func(m *Machine, _ *Frame, _ *ssa.CallCommon, a []Val) Val { return IntLit(1) }
 	models[pkgMath+".NewInt"] = func(m *Machine, _ *Frame, _ *ssa.CallCommon, a []Val) Val { return term(a[0]) }
 	models[in+"Mul"] = func(m *Machine, _ *Frame, _ *ssa.CallCommon, a []Val) Val { aDec(m); return Mul(term(a[0]), term(a[1])) }
+	models[in+"AddRaw"] = func(m *Machine, _ *Frame, _ *ssa.CallCommon, a []Val) Val { return Add(term(a[0]), term(a[1])) }
+	models[in+"SubRaw"] = func(m *Machine, _ *Frame, _ *ssa.CallCommon, a []Val) Val { return Sub(term(a[0]), term(a[1])) }
+	models[in+"MulRaw"] = func(m *Machine, _ *Frame, _ *ssa.CallCommon, a []Val) Val { return Mul(term(a[0]), term(a[1])) }
+	models[in+"Quo"] = func(m *Machine, _ *Frame, _ *ssa.CallCommon, a []Val) Val {
+		m.safeSite("div0", Neq(term(a[1]), IntLit(0)), "Int.Quo by zero panics")
+		return App(SInt, "tdiv", term(a[0]), term(a[1]))
+	}
 	models[in+"Int64"] = func(m *Machine, _ *Frame, _ *ssa.CallCommon, a []Val) Val { return term(a[0]) }
 
 	// ---- time ----
